@@ -1,1 +1,104 @@
-import GeomV.C12.Spec
+import GeomV.C12.LemmasNN
+/-
+C12 — property theorems (nearest neighbour).  They hold for every visiting order that is a
+permutation of the entry indices (`OrderOK`; `sort.Sort` is one, whatever it does with ties), on
+every well-formed tree (C11's `WF`, which `C11_reachable` establishes after any history), for
+all query points, assuming every object box contains a point.
+-/
+set_option linter.unusedVariables false
+set_option linter.unusedSimpArgs false
+namespace GeomV.C12
+open GeomV.C11
+variable {O : Type}
+
+/-- **C12_minDist_spec** — geom.go `minDist(p, r)` is the squared distance from `p` to the box:
+it is the spec's `boxDist2`, a lower bound for the squared distance to every point of the box, and
+attained at a point of the box (when the box has a point). -/
+theorem C12_minDist_spec (px py : Rat) (b : Box) :
+    minDist px py b = boxDist2 px py b ∧
+    (∀ x y, b.has x y → boxDist2 px py b ≤ pdist2 px py x y) ∧
+    (b.valid = true → ∃ x y, b.has x y ∧ pdist2 px py x y = boxDist2 px py b) :=
+  ⟨minDist_eq_boxDist2 px py b, boxDist2_le px py b, boxDist2_attained px py b⟩
+
+/-- **C12_minMaxDist_spec** — Roussopoulos' MINMAXDIST guarantee, which needs the
+exact-envelope clause of C11's `WF`: if `b` is the exact envelope of a non-empty list of boxes
+(each with a point), one of them is within `minMaxDist(p, b)` of `p`. -/
+theorem C12_minMaxDist_spec (px py : Rat) (b : Box) (bs : List Box) (henv : isEnvelope b bs = true)
+    (hv : ∀ x ∈ bs, x.valid = true) : ∃ x ∈ bs, boxDist2 px py x ≤ minMaxDist px py b := by
+  obtain ⟨x, hx, h⟩ := minMaxDist_spec px py ((isEnvelope_iff _ _).mp henv) hv
+  exact ⟨x, hx, by rw [← minDist_eq_boxDist2]; exact h⟩
+
+/-- **C12_prune_sound_k1** — `pruneEntries` is sound for the single nearest neighbour: in a
+well-formed non-leaf node, a child whose MINDIST exceeds the smallest MINMAXDIST of the node holds
+no object nearer than the nearest object of the whole node. -/
+theorem C12_prune_sound_k1 [Bounded O] (px py : Rat) (hv : ∀ o : O, (Bounded.bounds o).valid = true)
+    {maxC h : Nat} (es : List (Entry O)) (hes : ∀ e ∈ es, wfEntry maxC h e) (mmd : Rat)
+    (hmm : minMinMaxDist px py (es.map Entry.bb) = some mmd) (b : Box) (c : Node O)
+    (hc : Entry.child b c ∈ es) (hpr : mmd < minDist px py b) :
+    ∃ e ∈ es, ∃ o' ∈ e.objs, minDist px py e.bb ≤ mmd ∧
+      ∀ o ∈ c.objs, odist px py o' < odist px py o := by
+  obtain ⟨k, hk, ek⟩ := minMinMaxDist_some px py _ mmd hmm
+  have hk' : k < es.length := by simpa using hk
+  have hmem : es[k] ∈ es := List.getElem_mem hk'
+  have hwk := hes _ hmem
+  have ebk : (es.map Entry.bb)[k] = es[k].bb := by simp
+  rw [ebk] at ek
+  have henvk := hwk.env
+  obtain ⟨x, hx, hxle⟩ := minMaxDist_spec px py henvk (by
+    intro x hx; obtain ⟨o', _, rfl⟩ := List.mem_map.mp hx; exact hv o')
+  obtain ⟨ostar, hostar, rfl⟩ := List.mem_map.mp hx
+  have hmono := minDist_mono px py (henvk.lo _ hx) (hv ostar)
+  refine ⟨es[k], hmem, ostar, hostar, by linarith, ?_⟩
+  intro o ho
+  have henvc := (hes _ hc).env
+  have hmonoj := minDist_mono px py (henvc.lo _ (List.mem_map_of_mem (f := Bounded.bounds) ho)) (hv o)
+  simp only [Entry.bb] at hmonoj
+  unfold odist
+  rw [← minDist_eq_boxDist2, ← minDist_eq_boxDist2]
+  linarith
+
+/-- **C12_nn** — on a well-formed non-empty tree `NearestNeighbor(p)` does not panic and returns a
+stored object whose box is at minimum distance from `p`. -/
+theorem C12_nn [Bounded O] [DecidableEq O] {order : List Rat → List Nat} (hO : OrderOK order)
+    (t : C11.Tree O) (hwf : t.WF = true) (hne : t.abs ≠ []) (px py : Rat)
+    (hv : ∀ o : O, (Bounded.bounds o).valid = true) :
+    ∃ o, nearestNeighbor order t px py = .ok o ∧ specNN t.abs px py o = true ∧
+      o ∈ t.abs ∧ ∀ o' ∈ t.abs, odist px py o ≤ odist px py o' := by
+  have hw : wfNode t.maxC t.height t.root = true := by
+    have := hwf; simp [C11.Tree.WF] at this; exact this.1
+  obtain ⟨st', e, p⟩ := nnNode_spec hO px py hv t.root t.height hw none
+  obtain ⟨o0, ho0⟩ := List.exists_mem_of_ne_nil _ hne
+  obtain ⟨d, o, hst, _⟩ := p.best o0 ho0
+  have hfrom : ∃ o1, o1 ∈ t.root.objs ∧ st' = some (cdist px py o1, o1) := by
+    rcases p.from_ with g | g
+    · rw [g] at hst; cases hst
+    · exact g
+  obtain ⟨o1, ho1, hst1⟩ := hfrom
+  have hmin : ∀ o' ∈ t.abs, odist px py o1 ≤ odist px py o' := by
+    intro o' ho'
+    obtain ⟨d', o'', h1, h2⟩ := p.best o' ho'
+    rw [hst1] at h1; cases h1
+    unfold odist; rw [← minDist_eq_boxDist2, ← minDist_eq_boxDist2]; exact h2
+  refine ⟨o1, ?_, ?_, ho1, hmin⟩
+  · simp only [nearestNeighbor, e, hst1, bind, Except.bind, pure, Except.pure]
+  · simp only [specNN, Bool.and_eq_true, decide_eq_true_eq, List.all_eq_true]
+    exact ⟨ho1, hmin⟩
+
+/-- **C12_empty** — on an empty tree `NearestNeighbor` raises its explicit panic (outside the
+property's "non-empty tree"; documented behaviour). -/
+theorem C12_empty [Bounded O] {order : List Rat → List Nat} (hO : OrderOK order) (t : C11.Tree O)
+    (hwf : t.WF = true) (he : t.abs = []) (px py : Rat)
+    (hv : ∀ o : O, (Bounded.bounds o).valid = true) :
+    nearestNeighbor order t px py = .error Fault.nnNil := by
+  have hw : wfNode t.maxC t.height t.root = true := by
+    have := hwf; simp [C11.Tree.WF] at this; exact this.1
+  obtain ⟨st', e, p⟩ := nnNode_spec hO px py hv t.root t.height hw none
+  have : st' = none := by
+    rcases p.from_ with g | ⟨o, ho, _⟩
+    · exact g
+    · simp only [Tree.abs] at he; rw [he] at ho; cases ho
+  subst this
+  simp only [nearestNeighbor, e, bind, Except.bind]
+  rfl
+
+end GeomV.C12
